@@ -259,6 +259,64 @@ impl DB {
         self.guarded_fields.lock().maybe_immutable_memtable.is_some()
     }
 
+    /// Verification hook: audit of the table layout of the current version against the table files themselves. Returns one line per
+    /// problem: a file whose recorded smallest / largest key is not exactly its first / last stored entry, smallest > largest, a level
+    /// >= 1 that is not sorted and disjoint, a file number that appears twice, an unreadable table.
+    pub fn layout_audit_for_verif(&self) -> Vec<String> {
+        use crate::iterator::RainDbIterator;
+        let mut problems = vec![];
+        let version = {
+            let guard = self.guarded_fields.lock();
+            guard.version_set.get_current_version()
+        };
+        let mut seen: std::collections::HashSet<u64> = std::collections::HashSet::new();
+        {
+            let v = version.read();
+            for (level, files) in v.element.files.iter().enumerate() {
+                for (i, f) in files.iter().enumerate() {
+                    let (sm, lg) = (f.smallest_key(), f.largest_key());
+                    if !seen.insert(f.file_number()) {
+                        problems.push(format!("file {} appears twice", f.file_number()));
+                    }
+                    if sm > lg {
+                        problems.push(format!("L{} file {}: smallest {:?} > largest {:?}", level, f.file_number(), sm, lg));
+                    }
+                    if level >= 1 && i > 0 && files[i - 1].largest_key() >= sm {
+                        problems.push(format!("L{} files {} and {} are not ordered / overlap", level, files[i - 1].file_number(), f.file_number()));
+                    }
+                    match self.table_cache.find_table(f.file_number()) {
+                        Err(e) => problems.push(format!("L{} file {}: cannot open: {}", level, f.file_number(), e)),
+                        Ok(table) => {
+                            let mut it = crate::tables::Table::iter_with(table, ReadOptions::default());
+                            let (mut first, mut last, mut n): (Option<InternalKey>, Option<InternalKey>, usize) = (None, None, 0);
+                            if it.seek_to_first().is_ok() {
+                                while it.is_valid() {
+                                    let k = it.current().unwrap().0.clone();
+                                    if first.is_none() {
+                                        first = Some(k.clone());
+                                    }
+                                    last = Some(k);
+                                    n += 1;
+                                    if it.next().is_none() {
+                                        break;
+                                    }
+                                }
+                            }
+                            if first.as_ref() != Some(sm) || last.as_ref() != Some(lg) {
+                                problems.push(format!(
+                                    "L{} file {}: recorded range {:?}..{:?} but the {} stored entries run from {:?} to {:?}",
+                                    level, f.file_number(), sm, lg, n, first, last
+                                ));
+                            }
+                        }
+                    }
+                }
+            }
+        }
+        self.guarded_fields.lock().version_set.release_version(version);
+        problems
+    }
+
     /// Verification hook: number of level-0 files of the current version.
     pub fn num_level_zero_files_for_verif(&self) -> usize {
         self.guarded_fields.lock().version_set.num_files_at_level(0)
